@@ -455,11 +455,14 @@ class Model(object):
                 carry_ws = t.ws
                 if prev is not None and nxt is not None and not (t.ws or nxt.ws) and not glue_ok(prev.s, nxt.s):
                     self.f.add("adjacent-would-paste")
+                    self.f.add("separator-needed")
             else:
                 if prev is not None and not t.ws and not glue_ok(prev.s, res[0].s):
                     self.f.add("adjacent-would-paste")
+                    self.f.add("separator-needed")
                 if nxt is not None and not nxt.ws and not glue_ok(res[-1].s, nxt.s):
                     self.f.add("adjacent-would-paste")
+                    self.f.add("separator-needed")
                 res[0] = res[0].cp(ws=t.ws)
                 self.active[t.s] = self.active.get(t.s, 0) + 1
                 inp.append(Tok("ctxend", t.s))
@@ -556,6 +559,7 @@ class Model(object):
                 # two tokens without white space between them that cannot be WRITTEN without white space
                 # (they come from different replacement lists / arguments): -  -1,  +  +(
                 self.f.add("stringify-unseparated-tokens-would-merge")
+                self.f.add("separator-needed")
             sp = t.s
             if t.k in ("str", "chr"):
                 sp = sp.replace("\\", "\\\\").replace('"', '\\"')
@@ -608,6 +612,11 @@ class Model(object):
         self.ntok += len(res) + 1
         if self.ntok > self.max_tokens:
             raise Ambiguous("expansion too large")
+        for j in range(1, len(res)):
+            if not res[j].ws and not glue_ok(res[j - 1].s, res[j].s):
+                # two tokens of the result that no white space separates and that cannot be written without it:
+                # a text-based expander has to invent a blank here (it shows if the text is stringified later)
+                self.f.add("separator-needed")
         return [t.cp(hs=t.hs | hs) for t in res]
 
     def lit_features(self, m, toks):
